@@ -16,6 +16,7 @@ from .sink import (
   ClientMessageSink,
   ClientMessageSinkStack
 )
+from .timer_queue import GLOBAL_TIMER_QUEUE
 from .varz import (
   Rate,
   Source,
@@ -174,9 +175,34 @@ class MessageDispatcher(ClientMessageSink):
       # _DispatchMethod returns an AsyncResult, so we end up with an
       # AsyncResult<AsyncResult<TRet>>, Unwrap() removes one layer, yielding
       # an AsyncResult<TRet>
-      return self._open_ar.ContinueWith(
+      ar = self._open_ar.ContinueWith(
           lambda ar: self._DispatchMethod(method, args, kwargs, timeout, start_time)
       ).Unwrap()
+      if timeout:
+        # Nothing else enforces the timeout while waiting for Open().
+        ar = self._WithDeadline(ar, start_time + timeout)
+      return ar
+
+  @staticmethod
+  def _WithDeadline(ar, deadline):
+    """Returns an AsyncResult that completes like ar, or fails with a
+    TimeoutError at deadline if ar has not completed by then."""
+    ret = AsyncResult()
+    def on_timeout():
+      if not ret.ready():
+        ret.set_exception(TimeoutError())
+    cancel_timeout = GLOBAL_TIMER_QUEUE.Schedule(deadline, on_timeout)
+
+    def on_complete(_ar):
+      cancel_timeout()
+      if ret.ready():
+        return
+      if _ar.exception:
+        ret.set_exception(_ar.exception)
+      else:
+        ret.set(_ar.value)
+    ar.rawlink(on_complete)
+    return ret
 
   @staticmethod
   def StaticDispatchMessage(sink, source, start_time, deadline, disp_msg):
